@@ -66,20 +66,29 @@ extern int mpt_stream_sync(MPT_STRUCT(stream) *srm, size_t idlen, const MPT_STRU
 		}
 		/* get message data */
 		if (srm->_rd._state.data.msg < 0) {
-			if ((ret = mpt_stream_poll(srm, POLLIN, timeout)) < 0) {
-				return MPT_ERROR(BadOperation);
-			}
-			if (!ret) {
-				return count;
-			}
-			if (timeout > 0) {
-				timeout = 0;
-			}
-			if ((ret = mpt_queue_recv(&srm->_rd))) {
+			/* next message in data already loaded */
+			ret = mpt_queue_recv(&srm->_rd);
+			if (ret < 0 && ret != MPT_ERROR(MissingData)) {
 				return ret;
 			}
-			if (ret) {
-				break;
+			/* need further input */
+			if (ret <= 0) {
+				if ((ret = mpt_stream_poll(srm, POLLIN, timeout)) < 0) {
+					return MPT_ERROR(BadOperation);
+				}
+				if (!ret) {
+					return count;
+				}
+				if (timeout > 0) {
+					timeout = 0;
+				}
+				if ((ret = mpt_queue_recv(&srm->_rd)) < 0) {
+					return ret;
+				}
+				/* message still incomplete */
+				if (!ret) {
+					continue;
+				}
 			}
 		}
 		/* remove processed data */
@@ -111,8 +120,14 @@ extern int mpt_stream_sync(MPT_STRUCT(stream) *srm, size_t idlen, const MPT_STRU
 			ret = mc->cmd(mc->arg, &msg);
 		}
 		else {
-			continue;
+			ret = 0;
 		}
+		/* message is processed, must not be seen again */
+		srm->_rd._state.data.pos += srm->_rd._state.data.msg;
+		srm->_rd._state.data.len -= srm->_rd._state.data.msg;
+		srm->_rd._state.data.msg = -1;
+		mpt_queue_shift(&srm->_rd);
+		
 		if (ret < 0) {
 			break;
 		}
